@@ -15,7 +15,7 @@ LEVEL = "proof"
 
 MANIFEST = {
     "technique": 'Coq proof (replace-mode emplace = sync specification; idempotence) + differential correspondence',
-    "text": "Theorems C18_shared_replaced_rest_untouched / C18_idempotent over the model of FilePreservationSyncUtil; 'A is not modified' is observed on every real run (partial: not a Coq statement).",
+    "text": "Theorems C18_shared_replaced_rest_untouched / C18_idempotent over the model of FilePreservationSyncUtil; C18_source_untouched / C18_b_receives_the_synchronised_content over its file-system operations (Model.Output.filesync_ops, compared with the traced operations of every real run).",
     "note": PRES_NOTE,
 }
 RULE = ("cases = pairs of files (A, B) built from a grammar: plain lines (TABs, blank-line runs, generator-tag look-alikes, EXCLUDE/"
@@ -25,7 +25,7 @@ RULE = ("cases = pairs of files (A, B) built from a grammar: plain lines (TABs, 
         "second sync must change nothing; non-trivial = at least one shared pair whose bodies differ")
 ASSUMPTIONS = ["files are valid UTF-8 without CR; B's tags are paired, bodies contain no USER tag prefix (also not after CleanUpLine); "
                "the closing tag's cleaned text occurs in the raw opening tag line (same spelling of the name)"]
-TRUSTED = c01.TRUSTED + ["clause 'does not modify A': the model's file_sync has no output for A; observed on every real run, not a Coq statement"]
+TRUSTED = c01.TRUSTED + ["harness/faults.py: the interception layer that records the file-system operations of Generate.FileSync for the comparison with Model.Output.filesync_ops"]
 
 NAMES = ["X", "XY", "X_1", "IMPORTS", "Y", "x", "Imports"]
 STYLES = [b"// {{{USER_%s}}}\n", b"    # {{{USER_%s}}}\n", b"/* {{{USER_%s */\n", b"{{{USER_%s\n", b"\t/// {{{USER_%s}}}\n"]
@@ -78,14 +78,34 @@ def one_case(ctx, a, b, check_model=True):
         B = os.path.join(d, "s", "B.h")
         open(A, "wb").write(a)
         open(B, "wb").write(b)
-        with kj.quiet():
-            Generate.FileSync(A, B)
+        Bp = B
+        trace = None
+        if check_model and ctx.km:
+            from .. import faults
+            faults.TRACE_ALL.clear()
+            un = faults.install({}, None)
+            try:
+                with kj.quiet():
+                    Generate.FileSync(A, B)
+            finally:
+                un()
+            trace = [list(x) for x in faults.TRACE_ALL]
+        else:
+            with kj.quiet():
+                Generate.FileSync(A, B)
         b1 = open(B, "rb").read()
         a1 = open(A, "rb").read()
         with kj.quiet():
             Generate.FileSync(A, B)
         b2 = open(B, "rb").read()
         others = sorted(p for p in kj.read_tree(d) if p not in ("A.h", "s/B.h") and not p.endswith(".LostCode.txt"))
+    if check_model and ctx.km and trace is not None:
+        mops = [[k.decode(), x.decode("utf-8", "surrogateescape"), y.decode("utf-8", "surrogateescape")] for k, x, y in ctx.km.call("filesync_ops", Bp, a, b)]
+        ok = ctx.km.call("filesync_jobs_ok", Bp, a, b) == b"1"
+        ctx.count("jobs_ok_true" if ok else "jobs_ok_false")
+        if mops != trace:
+            ctx.tie_broken("correspondence: traced file-system operations of Generate.FileSync vs Model.Output.filesync_ops",
+                           {"a": a, "b": b, "impl": trace[:6], "model": mops[:6], "lengths": [len(trace), len(mops)]})
     if check_model and ctx.km:
         m = ctx.km.call("file_sync", a, b)
         if m != b1:
